@@ -200,6 +200,9 @@ func (prop) Generate(r *prng.Rand, phase string) any {
 	if cfg.MaxCoords > 8 {
 		cfg.MaxCoords = 8
 	}
+	if r.Chance(0.05) {
+		cfg.MaxCoords = 48 // long enough for unrolled or blocked folds to engage
+	}
 	types := append([]string{mgeom.LR}, mgeom.AllTypes...)
 	n := r.Range(1, []int{2, 3, 5, 12}[r.Intn(4)])
 	for i := 0; i < n; i++ {
@@ -208,6 +211,26 @@ func (prop) Generate(r *prng.Rand, phase string) any {
 			t = cfg.Types[r.Intn(len(cfg.Types))]
 		}
 		s.Msgs = append(s.Msgs, cfg.Gen(r, t, 1+r.Intn(4), 0))
+	}
+	if r.Chance(0.0004) {
+		// one very long line (a parallel or chunked fold would engage): the
+		// first and last coordinates and one in the middle hold the extremes
+		l := 1 + r.Intn(4)
+		st := mgeom.Stride(l)
+		nc := []int{4096, 20000, 33000}[r.Intn(3)] + r.Intn(7)
+		cs := make([]mgeom.Coord, nc)
+		for i := range cs {
+			c := make(mgeom.Coord, st)
+			for j := range c {
+				c[j] = mgeom.F(float64((i*7+j*13)%1000) - 500)
+			}
+			cs[i] = c
+		}
+		for j := 0; j < st; j++ {
+			cs[0][j], cs[nc/2+j][j], cs[nc-1][j] = 5000+mgeom.F(j), -7000-mgeom.F(j), 6000+mgeom.F(j)
+		}
+		s.Msgs = append(s.Msgs, &mgeom.Geom{T: mgeom.LS, L: l, P: [][][]mgeom.Coord{{cs}}})
+		n++
 	}
 	reps := r.Range(2, 4)
 	for k := 0; k < reps; k++ {
